@@ -166,6 +166,8 @@ impl Watchdog {
 /// Jitter: with this per-mille probability a thread sleeps a little at a `sched_point` (a point
 /// where raindb does not hold its mutex). Set per run from HistCfg::jitter.
 pub static JITTER_PERMILLE: std::sync::atomic::AtomicU64 = std::sync::atomic::AtomicU64::new(0);
+pub static JITTER_MAX_US: std::sync::atomic::AtomicU64 = std::sync::atomic::AtomicU64::new(600);
+pub static JITTER_POINT: parking_lot::Mutex<String> = parking_lot::Mutex::new(String::new());
 
 pub struct Jitter {
     state: parking_lot::Mutex<u64>,
@@ -189,10 +191,16 @@ impl Jitter {
 }
 
 impl crate::trace::Controller for Jitter {
-    fn sched_point(&self, _name: &'static str) {
+    fn sched_point(&self, name: &'static str) {
         let p = JITTER_PERMILLE.load(Ordering::Relaxed);
         if p == 0 {
             return;
+        }
+        {
+            let only = JITTER_POINT.lock();
+            if !only.is_empty() && only.as_str() != name {
+                return;
+            }
         }
         // xorshift: cheap, no dependency on the workload generator's stream
         let r = {
@@ -205,7 +213,7 @@ impl crate::trace::Controller for Jitter {
             x
         };
         if r % 1000 < p {
-            std::thread::sleep(Duration::from_micros((r >> 20) % 600));
+            std::thread::sleep(Duration::from_micros((r >> 20) % JITTER_MAX_US.load(Ordering::Relaxed).max(1)));
         }
     }
     fn about_to_wait(&self, which: &'static str) {
